@@ -41,6 +41,11 @@ class Injected(RuntimeError):
     pass
 
 
+class InjectedBase(BaseException):
+    """What a green-thread timeout or kill looks like to a handler: not an
+    Exception subclass."""
+
+
 def env_label(environ):
     if isinstance(environ, dict):
         return environ.get('verif.transport')
@@ -82,6 +87,9 @@ class Runner:
         self.faults = set(config.get('faults') or [])
         self.connect_script = {k: list(v) for k, v in
                                (config.get('connect_script') or {}).items()}
+        # behaviours of the next disconnect handler invocations:
+        # 'ok' | 'exc' (raises an Exception) | 'base' (a BaseException)
+        self.disconnect_script = []
         self.sid_names = {}
         self.issued = {}          # (T, ns) -> [sids in order]
         self.all_sids = []
@@ -113,6 +121,13 @@ class Runner:
                             via, n))
         if n in self.faults:
             raise Injected('injected fault at handler invocation %d' % n)
+        if kind == 'disconnect' and self.disconnect_script:
+            beh = self.disconnect_script.pop(0)
+            if beh == 'exc':
+                raise Injected('injected fault in disconnect handler')
+            if beh == 'base':
+                raise InjectedBase('injected non-Exception in disconnect '
+                                   'handler')
         if kind == 'connect':
             script = self.connect_script.get(ns)
             beh = script.pop(0) if script else 'accept'
@@ -384,6 +399,9 @@ class Runner:
                 raise ValueError('unknown op %r' % (op,))
         except Injected as e:
             res['exc'] = 'Injected'
+            res['exc_msg'] = str(e)
+        except InjectedBase as e:
+            res['exc'] = 'InjectedBase'
             res['exc_msg'] = str(e)
         except Exception as e:
             res['exc'] = type(e).__name__
